@@ -217,7 +217,8 @@ class Ctx:
                 if sig in seen:
                     continue
                 seen.add(sig)
-                print("VIOLATION property=%s replay=%s  [%s] %s" % (self.prop, path, sig, str(detail)[:400]))
+                shown = "".join(ch if 32 <= ord(ch) < 127 else "?" for ch in str(detail)[:400])   # one printable line per violation
+                print("VIOLATION property=%s replay=%s  [%s] %s" % (self.prop, path, sig, shown))
             return 1
         print("OK property=%s tier=%s seed=%d states=%d impl_cases=%d wall=%.1fs" % (
             self.prop, self.tier, self.seed, cov["states"], cov["traces_validated_against_impl"], wall))
